@@ -611,6 +611,7 @@ func init() {
 			r.Nontrivial += int64(len(outcomes))
 			r.Counters[fmt.Sprintf("scenario%d_schedules", si)] = int64(st.Executions)
 			r.Counters[fmt.Sprintf("scenario%d_distinct_histories", si)] = int64(len(outcomes))
+			r.Counters["nonreproducible_executions_retried"] += int64(st.Retries)
 			if st.Capped {
 				r.Capped, r.CapNote = true, fmt.Sprintf("scenario %d capped at %d schedules", si, st.Executions)
 			}
